@@ -47,7 +47,7 @@ def extra(binary, build, tier, rng):
         w = rng.choice([32, 64])
         fb = G.f64b if w == 64 else G.f32b
         a = fb(rng.choice([0.0, 1.0, -3.5, 100.0, 1e-3, rng.bits(20) / 64.0 - 1000]))
-        b = fb(rng.choice([0.0, 1.0, 0.25, 7.0, 1e-4, rng.bits(20) / 4096.0]))
+        b = fb(rng.choice([0.0, 1.0, 0.25, 7.0, 1e-4, rng.bits(20) / 4096.0, -1.0, -0.25, -rng.bits(20) / 4096.0, -0.0]))
         words = ",".join(map(str, G.zig_stream(rng, "norm", 1)))
         kind = rng.choice(["norm", "lnorm"])
         triples.append((kind, w, a, b, words))
@@ -75,4 +75,37 @@ def extra(binary, build, tier, rng):
             kind, w, a, b, words = triples[t]
             yield {"kind": "oracle", "build": build, "request": reqs[2 * t + 1], "impl": res[2 * t + 1], "model": zr,
                    "oracle": "%s sample differs from from_zscore(z) of the standard-normal sample drawn from the same words" % kind}
+    # the same clause against the platform's arithmetic instead of the crate's own from_zscore: the sample must be mean + sd*z
+    # (fused or not - the property does not fix the rounding of the intermediate product) and, for LogNormal, its exponential
+    isnan = lambda w, x: (x & 0x7FFFFFFFFFFFFFFF) > 0x7FF0000000000000 if w == 64 else (x & 0x7FFFFFFF) > 0x7F800000
+    q1, who = [], []
+    for t in idx:
+        kind, w, a, b, words = triples[t]
+        z = FO.samples(res[2 * t])[0]
+        q1 += ["fp op=fma w=%d a=%d b=%s c=%d" % (w, b, z, a), "fp op=mul w=%d a=%d b=%s" % (w, b, z)]
+        who.append(t)
+    rc, r1, err = C.run_lines(binary, ["run"], q1)
+    q2 = ["fp op=add w=%d a=%s b=%d" % (triples[t][1], r1[2 * i + 1], triples[t][2]) for i, t in enumerate(who)]
+    rc, r2, err = C.run_lines(binary, ["run"], q2)
+    cand = {t: [r1[2 * i], r2[i]] for i, t in enumerate(who)}
+    q3 = [q for t in who if triples[t][0] == "lnorm" for q in ("fp op=exp w=%d a=%s" % (triples[t][1], cand[t][0]), "fp op=exp w=%d a=%s" % (triples[t][1], cand[t][1]))]
+    rc, r3, err = C.run_lines(binary, ["run"], q3) if q3 else (0, [], "")
+    j = 0
+    for t in who:
+        kind, w, a, b, words = triples[t]
+        if kind == "lnorm":
+            cand[t] = [r3[j], r3[j + 1]]
+            j += 2
+        sample_tok = [x for x in res[2 * t + 1].split() if x.startswith("ok:")]
+        if not sample_tok:
+            continue
+        got = sample_tok[0].split(":")[1]
+        try:
+            g, cs = int(got), [int(c) for c in cand[t]]
+        except ValueError:
+            continue
+        if g in cs or (isnan(w, g) and any(isnan(w, c) for c in cs)):
+            continue
+        yield {"kind": "oracle", "build": build, "request": reqs[2 * t + 1], "impl": res[2 * t + 1], "model": "mean + sd*z%s = %s (fused) / %s (unfused), z = %s" % (", exponentiated," if kind == "lnorm" else "", cand[t][0], cand[t][1], FO.samples(res[2 * t])[0]),
+               "oracle": "%s sample is not the z-score transform mean + sd*z%s of the standard-normal sample drawn from the same words (platform arithmetic, fused or unfused)" % ("LogNormal" if kind == "lnorm" else "Normal", " exponentiated" if kind == "lnorm" else "")}
     yield {"kind": "count", "what": "zscore-transform-triples", "n": len(idx)}
